@@ -635,7 +635,11 @@ func (d *Downstream) resume(parentConn *Conn) error {
 		return true
 	})
 	if resErr != nil {
-		d.closeWithError(d.ctx, resErr)
+		// bounded: a broker that refused the resume may not answer the close request either,
+		// and the stream must still be reported closed
+		cctx, ccancel := context.WithTimeout(d.ctx, defaultCloseTimeout)
+		d.closeWithError(cctx, resErr)
+		ccancel()
 		return resErr
 	}
 	d.eventDispatcher.addHandler(func() {
